@@ -475,13 +475,13 @@ def count_this(u):
     return 0
 
 
-def gen_wire_model(rng, modular=None, degenerate=0.0, p_this=0.25, max_types=4, max_rels=4, depth=3):
+def gen_wire_model(rng, modular=None, degenerate=0.0, p_this=0.25, max_types=4, max_rels=4, depth=3, modules=None, files=None):
     names = Names(rng, 0.15)
     if modular is None:
         modular = rng.random() < 0.4
     tnames = names.distinct(rng.randint(1, max_types))
-    modules = ["core", "wiki", "a"]
-    files = ["core.fga", "z.fga", "a/b.fga", ""]
+    modules = modules or ["core", "wiki", "a"]
+    files = files or ["core.fga", "z.fga", "a/b.fga", ""]
     cnames = [c for c in COND_IDS[:4] if rng.random() < 0.4]
     types = []
     for tn in tnames:
